@@ -14,7 +14,9 @@ def check(ctx):
         "range, and the guard is released on every return path and on the poll's unwind path; R2 Option<Span>::take "
         "of the adapter's span is guarded by the Poll::Ready edge, must be passed from it and is unreachable from "
         "Pending; R3 every non-cleanup drop of the taken span is reachable only through a release of the guard "
-        "(Drop terminator or move into mem::drop).")
+        "(Drop terminator or move into mem::drop); R4 the wrapped future is declared before the span (drop order); R5 "
+        "Span::set_local_parent opens a scope on every path (also for a span whose trace is not sampled: the scope is what "
+        "masks the thread's previous local parent during the poll).")
     ctx.not_decided = ("migration between threads, restoration of the previous context (C10), one local span per "
                        "poll as a count, delivery of what was recorded (C01/C03).")
     facts = ctx.facts("E")
@@ -27,3 +29,6 @@ def check(ctx):
         adapters.check_adapter(ctx, facts, fn, "", kind=kind)
     ctx.floor("R1", "fastrace::future", n, 2, "adapter poll methods")
     adapters.rule_drop_order(ctx, facts, "R4", "fastrace::future::InSpan")
+    # "has that span as local parent during every poll" also for a span that is not sampled: the scope must be opened
+    from .. import scopes
+    scopes.rule_scope_always_opened(ctx, facts, "R5")
